@@ -76,3 +76,13 @@ package main
 //@ spec func loadedHit(t *old_faithful_grpc.Transaction, accounts []string) bool = exists k int :: 0 <= k && k < len(byteSlicesToKeySlice(loadedOf(metaOf(t)))) && inAccs(accounts, keyStr(byteSlicesToKeySlice(loadedOf(metaOf(t)))[k]))
 // a transaction "mentions one of the accounts": a static key, or (when the meta parses) a loaded key; an undecodable one mentions nothing
 //@ spec func txMentions(t *old_faithful_grpc.Transaction, accounts []string) bool = decOK(t) && (staticHit(t, accounts) || (metaOK(t) && loadedHit(t, accounts)))
+
+// getPrograms (helper of IsVote): the program of EVERY instruction of the message is resolved — the simple-vote checker decides
+// on HOW MANY programs there are (1, or 2 with the vote program second), so stopping early changes the classification of
+// transactions with more instructions. Stated with the ghost call counter: one ResolveProgramIDIndex call per instruction.
+//@ func getPrograms
+//@   mode int
+//@   requires tx != nil
+//@   ensures called(tx.ResolveProgramIDIndex) == len(tx.Message.Instructions)
+//@   loop 0 invariant 0 <= rangeidx0 && rangeidx0 <= len(tx.Message.Instructions) && called(tx.ResolveProgramIDIndex) == rangeidx0
+//@   noframe
